@@ -21,7 +21,7 @@ def check_C01(tier, seed):
             "ingestion pushes only (ColumnBuffer::push_* with present = None); the caller-supplied null map of compaction is C07",
         ],
         rule="c01_colbuf: seeded generator over 14 integer classes (width edges with/without offset, negative, i64 extremes, "
-             "monotone runs around the 90% delta threshold, F10/F19 shapes), 8 float classes, 16 string classes (254/255/256/510/765 "
+             "monotone runs around the 90% delta threshold, the former F10/F19 shapes), 8 float classes, 16 string classes (254/255/256/510/765 "
              "bytes, unicode, hex around the >5 threshold, dictionary cardinality around len/2 and 254..257, and 65535..65537 oracle-only), mixed-type buffers, "
              "8 null patterns, lengths around 8/64/128 multiples and around 1024/2048, 3 push styles (runs, split runs, one push per value with "
              "push_nulls(gap)), 6 batch sizes; c01_api: 1-4 columns x 1-3 table buffers x 1-3 batches, ColumnData "
@@ -44,10 +44,12 @@ CLAIMED = {
              "finished column equal the supplied cells with NULLs in place and the documented int+float->float / "
              "anything+string->string degradation (C01_roundtrip, by a refinement invariant over the push state machine, "
              "incl. the byte-level null bitmap: C01_bitmap); per-type theorems: integer encode->decode for every rung of the "
-             "width/offset ladder, delta and plain, nullable or not, with overflow-freedom of encoder and decoder outside two "
-             "characterised classes; strings for all byte strings < 2^24 in the packed, hex-packed and dictionary layouts plus "
-             "totality of the string writer; floats bit-exact. The full statement is refuted on the faithful model by three "
-             "witnesses (F4, F10, F19), each replayed on the implementation as a known finding. The model is tied to the Rust "
+             "width/offset ladder, delta and plain, nullable or not, with overflow-freedom of the decoder and of the encoder up to one "
+             "practically unreachable corner (see below); strings for all byte strings < 2^24 in the packed, hex-packed and dictionary layouts plus "
+             "totality of the string writer; floats bit-exact. Model and theorems follow /repo 4a8ac11: the three witnesses "
+             "(F4, F10, F19) that refuted the statement on the earlier code are now positive examples, and the only guard "
+             "left in C01_roundtrip is the range-metadata subtraction of a delta-coded column whose maximum lies within 2^32 "
+             "of i64::MAX. The model is tied to the Rust "
              "code on every run by a column-structure differential (codec ops, section payloads, range) and by an API-level "
              "oracle + differential through LocustDB::ingest_efficient and SELECT (rows and columns, memory and disk).",
         note="Proved about the model: write path + decode program semantics. Only covered by correspondence: the query "
